@@ -1015,8 +1015,12 @@ def emit_item(gen, sf, it, opts, blk, what):
     })
 
 
+CONST_FILES = ["teos-common/src/lib.rs", "teos-common/src/constants.rs", "teos-common/src/appointment.rs", "teos-common/src/errors.rs",
+               "watchtower-plugin/src/constants.rs"]
+
+
 def flush_consts(gen):
-    """Rule E20: a `const` item of the same source file that a function under contract mentions, and that the unit does
+    """Rule E20: a `const` item of the same source file (or of one of the crate-level constant files) that a function under contract mentions, and that the unit does
     not define already (by an explicit `//@ extract .. const` or by hand), is extracted verbatim.  This keeps an edit
     that introduces a named constant decidable instead of ending as `unknown identifier`."""
     done = set()
@@ -1026,14 +1030,25 @@ def flush_consts(gen):
         if re.search(r"\b(const|static)\s+%s\b" % re.escape(nm), mask(gen.text())):
             done.add(nm)
             continue
-        try:
-            it = sf.find("const " + nm)
-        except ExtractError:
+        it = None
+        # the constant's own file first, then the crate-level constant files it may be imported from
+        for cand in [sf] + [SourceFile.get(f) for f in CONST_FILES if f != sf.rel and os.path.exists(os.path.join(REPO, f))]:
+            try:
+                it = cand.find("const " + nm)
+                sf = cand
+                break
+            except ExtractError:
+                continue
+        if it is None:
             continue
         done.add(nm)
         raw = sf.src[it.start:it.end]
         log = ["E20 constant mentioned by %s, extracted verbatim" % what]
         text = rule_E4_vis(rule_E1_attrs(raw, log), "const", False, log)
+        if re.search(r":\s*&\s*str\b", text):
+            # Verus turns a const into a function and then wants the elided lifetime spelled out
+            text = re.sub(r":\s*&\s*str\b", ": &'static str", text, count=1)
+            log.append("E20 elided `'static` lifetime of the constant's type spelled out")
         gen.add(text, {"kind": "src", "file": sf.rel, "src_line0": sf.line_of(it.start), "fn": "const " + nm})
         gen.items.append({"item": "const " + nm, "source": sf.rel, "lines": [sf.line_of(it.start), sf.line_of(it.end)],
                           "sha256": hashlib.sha256(raw.encode()).hexdigest()[:16], "rules": log, "stub": False})
